@@ -132,7 +132,9 @@ Example cx_bits_and_wrapper :
   Some [177; 4] /\
   decode iprims (SArr 3 (SPrim PU8)) [1; 2; 3; 4] = Some (VSeq [VPrim 1; VPrim 2; VPrim 3], [4]) /\
   encode iprims (SArr 3 (SPrim PU8)) (VSeq [VPrim 1; VPrim 2]) = None /\
-  decode iprims (STuple [SPrim PU8; SPrim PBool]) [9; 0] = Some (VTuple [VPrim 9; VPrim 0], []).
+  decode iprims (STuple [SPrim PU8; SPrim PBool]) [9; 0] = Some (VTuple [VPrim 9; VPrim 0], []) /\
+  decode iprims (SCompact (STuple [])) [9] = Some (VTuple [], [9]) /\
+  decode iprims (SCompact (SSeq (SPrim PU8))) [0] = None.
 Proof. vm_compute. repeat split; reflexivity. Qed.
 
 (** the same relation for EVERY field-value list, from the theorem (its hypotheses are
